@@ -22,6 +22,7 @@ pub fn stages(tier: Tier, run: RunFn<Hist>, rule: &'static str) -> Vec<Box<dyn D
     ];
     for (l, name, q, t) in langs {
         let mut cfg = HistCfg::for_lang(l);
+        cfg.namings = Naming::diverse();
         cfg.max_ops = tier.pick(6, 9);
         v.push(Box::new(Stage {
             name,
